@@ -65,6 +65,75 @@ def check(prog, rep):
     rep.assume("SciPy capability sets are those documented for scipy.optimize.minimize (reference table F9)")
 
 
+def _sign_applied_at_call_time(module, call):
+    """True when the callable produced by ``call`` (a compile_* call) is, somewhere in the module, invoked under a
+    negation (-g(x), np.negative(g(x)), -1 * g(x)): names bound to the result directly, or read back from the dict key
+    it is stored under, are followed."""
+    from ..astutil import parent
+    names, keys = set(), set()
+    p_ = parent(call)
+    while p_ is not None and not isinstance(p_, ast.stmt):
+        if isinstance(p_, ast.Dict):
+            for k, v in zip(p_.keys, p_.values):
+                if v is call or any(x is call for x in ast.walk(v)):
+                    if isinstance(k, ast.Constant):
+                        keys.add(k.value)
+        p_ = parent(p_)
+    if isinstance(p_, (ast.Assign, ast.AnnAssign)):
+        for t in (p_.targets if isinstance(p_, ast.Assign) else [p_.target]):
+            if isinstance(t, ast.Name):
+                names.add(t.id)
+            elif isinstance(t, ast.Subscript) and isinstance(t.slice, ast.Constant):
+                keys.add(t.slice.value)
+    tree = module.tree
+    for _ in range(3):
+        for n in ast.walk(tree):
+            if isinstance(n, ast.Assign):
+                v = n.value
+                stored_name = isinstance(v, ast.Name) and v.id in names
+                for t in n.targets:
+                    if isinstance(t, ast.Subscript) and isinstance(t.slice, ast.Constant) and stored_name:
+                        keys.add(t.slice.value)
+                    if isinstance(t, ast.Name):
+                        if isinstance(v, ast.Subscript) and isinstance(v.slice, ast.Constant) and v.slice.value in keys:
+                            names.add(t.id)
+                        if isinstance(v, ast.Call) and isinstance(v.func, ast.Attribute) and v.func.attr == "get" and v.args and isinstance(v.args[0], ast.Constant) and v.args[0].value in keys:
+                            names.add(t.id)
+                        if stored_name:
+                            names.add(t.id)
+            if isinstance(n, ast.Call) and isinstance(n.func, ast.Name):
+                # a factory that receives the callable: its parameter is a name for it
+                for i, a in enumerate(n.args):
+                    if isinstance(a, ast.Name) and a.id in names:
+                        for d in ast.walk(tree):
+                            if isinstance(d, ast.FunctionDef) and d.name == n.func.id and i < len(d.args.args):
+                                names.add(d.args.args[i].arg)
+
+    def is_call_of(e):
+        return isinstance(e, ast.Call) and isinstance(e.func, ast.Name) and e.func.id in names
+
+    results = set()
+    for n in ast.walk(tree):
+        if isinstance(n, ast.Assign) and is_call_of(n.value):
+            results |= {t.id for t in n.targets if isinstance(t, ast.Name)}
+
+    def is_result(e):
+        return is_call_of(e) or (isinstance(e, ast.Name) and e.id in results) or (isinstance(e, ast.Call) and e.args and is_result(e.args[0]) and (dotted(e.func) or "") in ("float", "np.asarray", "np.array"))
+
+    for n in ast.walk(tree):
+        if isinstance(n, ast.UnaryOp) and isinstance(n.op, ast.USub) and is_result(n.operand):
+            return True
+        if isinstance(n, ast.Call) and (dotted(n.func) or "").split(".")[-1] == "negative" and n.args and is_result(n.args[0]):
+            return True
+        if isinstance(n, ast.BinOp) and isinstance(n.op, ast.Mult) and (is_result(n.left) or is_result(n.right)):
+            other = n.right if is_result(n.left) else n.left
+            if isinstance(other, ast.UnaryOp) and isinstance(other.op, ast.USub) or isinstance(other, ast.Name):
+                return True
+        if isinstance(n, ast.AugAssign) and isinstance(n.op, ast.Mult) and isinstance(n.target, ast.Name) and n.target.id in results:
+            return True
+    return False
+
+
 def _cache_entry_origin(prog, mod, key):
     """(function, value node, assigns) for `X["key"] = value` stores in a module."""
     out = []
@@ -214,6 +283,9 @@ def _wiring(prog, rep, fi, call):
                 continue
             n_art += 1
             ok = vals["max"].eq(al_.C(-1) * al_.A("BASE")) and vals["min"].eq(al_.A("BASE"))
+            if not ok and _sign_applied_at_call_time(f2.module, c):
+                rep.undecided(f"{f2.name}:{d}: compiled from {vals['max'].key().replace('BASE', 'objective')} when maximising, but the compiled callable is negated where it is called; the sign of what the backend sees is not decided by this rule")
+                continue
             rep.ob("R09.2", f"{f2.name}:{d}", ok, f"{d} is handed -objective iff the user maximises" if ok else f"{d} is handed {vals['max'].key().replace('BASE', 'objective')} when maximising and {vals['min'].key().replace('BASE', 'objective')} when minimising: objective, gradient and Hessian must all be compiled from -objective exactly for maximise", loc=f"{f2.module.rel}:{c.lineno}", detail="maximise-negation-consistent", robust=True)
     if n_art < 3:
         rep.undecided(f"R09.2: only {n_art} compiled artefacts of the objective could be interpreted (objective, gradient, Hessian expected)")
